@@ -564,6 +564,27 @@ fn scenario(cmd: &str, variant: u64, seed: u64, nfiles: usize, dp: u32, tp: u32)
                 es(repo.prune(&o, plan))?;
                 note = "second prune after a marking prune".into();
             }
+            if variant & 64 != 0 {
+                // the recorded prune is the RECOVERY run after a prune that was cut off when its new packs and
+                // index were written but nothing was removed yet (every repacked blob is then listed twice)
+                let o = prune_opts(variant & 12);
+                let probe = Arc::new((*store).clone());
+                let rec = RecBackend::new(dynbe(&probe), "probe");
+                {
+                    let r = es(open_repo(rec.clone(), None, &key, &repo_opts()))?;
+                    let plan = es(r.prune_plan(&o))?;
+                    es(r.prune(&o, plan))?;
+                }
+                let k = rec.take_log().iter().filter(|x| x.is_mutating()).take_while(|x| x.kind == OpKind::Write).count();
+                let rec = RecBackend::new(dynbe(&store), "cut");
+                rec.set_plan(FaultPlan { crash_after: Some(k), ..Default::default() });
+                {
+                    let r = es(open_repo(rec.clone(), None, &key, &repo_opts()))?;
+                    let plan = es(r.prune_plan(&o))?;
+                    let _ = r.prune(&o, plan);
+                }
+                note = format!("prune again after a prune that was cut off after its {k} writes");
+            }
             let o = prune_opts(variant & 15);
             Arc::new(move |be| {
                 let repo = open(be)?;
